@@ -248,8 +248,10 @@ EXTRA = (" Since the seeded-change rounds (DESIGN.md section 10) the workload al
          "stays below its threshold exits 2 (inconclusive) instead of 0. Every check also makes bursts of calls to the "
          "other library functions between its cases (cross-function histories), records the line reach of the "
          "anchored functions (a named function never entered makes the run inconclusive) and, where the contract "
-         "is self-contained, runs the repository's own tests under the contract. Validated against 140 independently "
-         "written property-breaking changes (all reported) and 60 property-preserving refactors (none reported).")
+         "is self-contained, runs the repository's own tests under the contract; the workload is repeated under four "
+         "interpreter environments (python -O, RuntimeWarning/UserWarning as errors, worker thread, stepping clock). "
+         "Validated against 161 independently written property-breaking changes (all reported) and 79 "
+         "property-preserving refactors (none reported by the checks they preserve).")
 
 
 def main():
